@@ -638,7 +638,7 @@ fn case_strategy() -> impl Strategy<Value = Case> {
 pub fn check(ctx: &Ctx) -> Vec<PartReport> {
     let known = ctx.known.is_known("C12", KF_DELEGATION_EXTRAS);
     let n = ctx.cases(60, 900);
-    vec![run_part(
+    let mut out = vec![run_part(
         ctx,
         PartSpec {
             name: "mutants",
@@ -647,10 +647,17 @@ pub fn check(ctx: &Ctx) -> Vec<PartReport> {
             prop: Box::new(move |c: &Case| prop_with(c, known)),
             require: vec![("has-unknown-members", n as u64 / 2), ("swap", n as u64 / 2), ("mutant-accepted-without-effect", n as u64 / 2)],
         },
-    )]
+    )];
+    if ctx.tier == crate::engine::Tier::Thorough && !ctx.stop.load(std::sync::atomic::Ordering::Relaxed) {
+        out.push(crate::fuzz::run(ctx, "C12", "signed_parse", (1_000_000f64 * ctx.scale) as u64, 8192));
+    }
+    out
 }
 
-pub fn replay(ctx: &Ctx, _part: &str, case: &Value) -> Outcome {
+pub fn replay(ctx: &Ctx, part: &str, case: &Value) -> Outcome {
+    if let Some(t) = part.strip_prefix("fuzz:") {
+        return crate::fuzz::replay(t, case["input_hex"].as_str().unwrap_or(""));
+    }
     let known = ctx.known.is_known("C12", KF_DELEGATION_EXTRAS);
     crate::engine::replay_case::<Case>(case, |c| prop_with(c, known))
 }
